@@ -305,11 +305,11 @@ func (t *Tokenizer) run(tokens chan<- Token) {
 }
 
 func (t *Tokenizer) parseOperator() (string, bool) {
-	r := t.next(false)
+	r := t.next(true)
 	if d, _ := t.operatorDetector(r); d != nil {
 		op := string(r)
 		for {
-			r = t.next(false)
+			r = t.next(true)
 			var ok bool
 			if d, ok = d(r); d != nil {
 				op += string(r)
@@ -376,7 +376,9 @@ func (t *Tokenizer) peek(skipComment bool) rune {
 						}
 					}
 				}
-				t.last, size = utf8.DecodeRuneInString(t.str)
+				// a block comment reads as one blank: it separates the tokens around it
+				// and the rune behind it is examined by the next call (it may open a comment)
+				t.last, size = ' ', 0
 			}
 		}
 	}
